@@ -48,3 +48,20 @@ def install():
 
     c.make_counterexample_message = make_counterexample_message
     c._verif_patched = True
+
+    # C-boundary constructors fed a *string proxy* realise their argument first (CrossHair's pure-Python
+    # decimal fork raises re.error on a symbolic str, which would surface as a false counterexample)
+    import decimal as _decimal
+    import types
+
+    import basilisp.lang.reader as _R
+
+    class _DecimalShim(types.ModuleType):
+        def __getattr__(self, n):
+            return getattr(_decimal, n)
+
+        @staticmethod
+        def Decimal(value="0", context=None):
+            return _decimal.Decimal(c.deep_realize(value), context)
+
+    _R.decimal = _DecimalShim("decimal")
